@@ -130,7 +130,13 @@ def apply_choice(r, ch, lazy=False):
     elif op == "rep":
         r.report(ch[1], ch[2], ch[3], ch[4])
     elif op == "req":
-        r.req(ch[1])
+        st = r.req(ch[1])
+        if ch[1] in ("resuming", "running") and st["ret"] == "ok" and r.started:
+            # resuming the workflow cascades to the actions that are paused (as StackStorm does)
+            for (t, rt, i), a in sorted(r.acts.items()):
+                rec = r.c.get_task_state_entry(t, rt)
+                if a == "paused" and not (rec is not None and rec.get("status") in COMPLETED):
+                    r.report(t, rt, i, "resuming" if i < 0 else "running")
     elif op == "rerun":
         r.rerun(ch[1])
         r.rendered = False
@@ -158,7 +164,7 @@ def apply_choice(r, ch, lazy=False):
 
 def choices(r, bud, env):
     wf = r.c.get_workflow_status()
-    out = [["rep"] + c for c in r.report_choices()]
+    out = [["rep"] + c for c in r.report_choices(held=bud["resume"] > 0, canceled=bud.get("canceled", False))]
     if env.get("lazy"):
         for o in r.__dict__.get("pending_offers", []):
             out.append(["startb", o[0], o[1], o[2]])
@@ -202,6 +208,7 @@ def spend(bud, ch):
         b["resume"] -= 1
     elif ch[0] == "req" and ch[1] in ("canceling", "canceled"):
         b["cancel"] -= 1
+        b["canceled"] = True
     elif ch[0] == "persist":
         b["persist"] -= 1
     elif ch[0] == "rerun":
@@ -224,7 +231,7 @@ def explore(d, env=None, lang="yaql", form=0, tok="task", rng=None, inputs=None)
     stack = [(r0, n, bud0, 1)]
     while stack:
         r, node, bud, depth = stack.pop()
-        k = (r.key(), tuple(sorted(bud.items())), tuple(map(tuple, map(str, r.__dict__.get("pending_offers", [])))))
+        k = (r.key(), tuple(sorted((a, int(b)) for a, b in bud.items())), tuple(map(tuple, map(str, r.__dict__.get("pending_offers", [])))))
         if k in seen:
             continue
         seen.add(k)
